@@ -214,6 +214,9 @@ def _set_loc(nodes: List[ast.AST], loc: ast.AST) -> None:
                 n.end_col_offset = getattr(loc, 'end_col_offset', 0)
 
 
+POLYMORPHIC: set = set()       # method names defined in several classes (set by the loader for the tree being analysed)
+
+
 class _Inliner:
     def __init__(self, tree: ast.Module, path: str):
         self.tree, self.path = tree, path
@@ -237,6 +240,10 @@ class _Inliner:
                         decs = _decorators(m)
                         kind = 'static' if 'staticmethod' in decs else 'class' if 'classmethod' in decs else 'method'
                         if [d for d in decs if d not in ('staticmethod', 'classmethod')]:
+                            continue
+                        if m.name in POLYMORPHIC:
+                            self.log.append(f'{self.path}:{m.lineno} {st.name}.{m.name} not inlined: the name is defined in several '
+                                            f'classes (a call may dispatch to an override)')
                             continue
                         h = _Helper(m, kind, f'{st.name}.{m.name}')
                         if h.suitable():
